@@ -390,6 +390,7 @@ func (m *amethod) text() string {
 
 type apkg struct {
 	Name    string
+	GoPkg   string // package clause when it differs from the directory name
 	Spec    *GSpec
 	Lox     string
 	RuleTy  []string // type expression per rule of Spec
@@ -659,6 +660,9 @@ func genAssignPkg(r *Rng, name string, s *GSpec) *apkg {
 // buildFiles renders the package: p.go (fixed prelude), m.go / a.go (the action methods), g.lox.
 func (a *apkg) buildFiles() {
 	name, s := a.Name, a.Spec
+	if a.GoPkg != "" {
+		name = a.GoPkg
+	}
 	var f0, f1 strings.Builder
 	hdr := "package " + name + "\n\nimport (\n\t\"fmt\"\n\t\"strings\"\n\t\"time\"\n\n\thelper \"verifgen/helper\"\n)\n\nvar (\n\t_ fmt.Stringer\n\t_ strings.Builder\n\t_ time.Duration\n\t_ helper.Item\n)\n\n"
 	f0.WriteString(hdr)
@@ -772,6 +776,22 @@ func directedAssignPkgs() []*apkg {
 			{Name: "on_a", Params: []string{"Token"}, Results: []string{"K1"}, MkExpr: "K1(id)"},
 			{Name: "on_b", Params: []string{"Token"}, Results: []string{"string"}, MkExpr: "itoa(id)"}},
 		[][]int{{0}, {1}}))
+	// the grammar package has the SAME NAME as an imported package whose types the rules use (the generated
+	// code must still qualify those types with the import alias)
+	{
+		a := mk("d0092", "same-name-as-imported-package", 0,
+			&GSpec{Tokens: []string{"TA", "TB"}, Rules: []*GRule{
+				{Name: "s", Prods: []*GProd{{Terms: []*GTerm{rule(1), wrap(KStar, rule(1))}}}},
+				{Name: "a", Prods: []*GProd{{Terms: []*GTerm{tok(0)}}, {Terms: []*GTerm{tok(1)}}}}}},
+			[]string{"int", "helper.Item"},
+			[]*amethod{
+				{Name: "on_s", Params: []string{"helper.Tagger", "[]helper.Item"}, Results: []string{"int"}, MkExpr: "id"},
+				{Name: "on_a", Params: []string{"Token"}, Results: []string{"helper.Item"}, MkExpr: "helper.Item{ID: id}"}},
+			[][]int{{0}, {0, 1, 0}})
+		a.GoPkg = "helper"
+		a.buildFiles()
+		out = append(out, a)
+	}
 	// D16: variadic action method: s = A* n ; on_s(a []Token, n ...int32) must be refused
 	out = append(out, mk("d0002", "D16-variadic", 0,
 		&GSpec{Tokens: []string{"TA", "TB"}, Rules: []*GRule{
